@@ -278,6 +278,10 @@ def audit_file_directly(module, namespace, theorems):
     return res
 
 
+# corollaries that combine a regenerated function with theorems of the hand-written model; audited with the `_eq_model` theorem of the function
+GEN_LOGIC_COROLLARIES = {'parse_mpint': ['regenerated_reader_inverts_writer']}
+
+
 def gen_logic_audit(names):
     """The regenerated-logic tie of a plugin that declares GEN_LOGIC = [function names of harness/translate_logic.py]: regenerate
     lean/SshAudit/Gen/Logic*.lean from the source, build the theorem file(s) of the units concerned (Props/GenLogic.lean, Props/GenLogicCrc.lean)
@@ -298,6 +302,8 @@ def gen_logic_audit(names):
     for unit, ns in sorted(by_unit.items()):
         module = 'SshAudit.Props.Gen' + unit
         ths = [n + '_eq_model' for n in ns]
+        cors = {c: n for n in ns for c in GEN_LOGIC_COROLLARIES.get(n, [])}
+        ths += sorted(cors)
         b = lake_build([module])
         res = audit_theorems(module, 'SshAudit.GenLogic', ths, b)
         if not b['ok']:
@@ -311,6 +317,8 @@ def gen_logic_audit(names):
                 r = {'ok': False, 'axioms': None, 'structural': True,
                      'why': 'the function is no longer in the translatable subset: ' + info['untranslatable'][n]}
             out['GenLogic.%s_eq_model' % n] = r
+        for c, n in sorted(cors.items()):
+            out['GenLogic.' + c] = dict(out['GenLogic.%s_eq_model' % n]) if out['GenLogic.%s_eq_model' % n].get('structural') else res[c]
     return out, info
 
 
